@@ -365,6 +365,21 @@ def part_c(res, rng, tier, seed, d):
                     if nadir > 1.0 or edge < 60.0:
                         res.violations.append(("approximate (no-TLE) satellite zenith is not about 0 at nadir rising towards the swath edge",
                                                dict(ctx2, nadir=nadir, edge=edge, nadir_lon=float(lons[0, lons.shape[1] // 2]))))
+            if tle_state == "absent":
+                # the same fallback on tie-point-only coordinates: zenith about 0 at the centre tie point, symmetric edges
+                try:
+                    with warnings.catch_warnings():
+                        warnings.simplefilter("ignore")
+                        r3 = impl.open_reader(fmt, l1b.build_file(fmt, sc, start, lines), adjust_clock_drift=False, interpolate_coords=False, **kw)
+                        sz3 = r3.get_angles()[1]
+                    ok3 = ~np.all(np.isnan(sz3), axis=1)
+                    nad3 = float(np.nanmax(np.nanmin(sz3[ok3], axis=1)))
+                    asym = float(np.nanmax(np.abs(sz3[ok3][:, 0] - sz3[ok3][:, -1])))
+                    if sz3.shape[1] != 51 or nad3 > 1.0 or asym > 1.0 or int(np.nanargmin(sz3[ok3][0])) != 25:
+                        res.violations.append(("approximate (no-TLE) satellite zenith on tie-point-only coordinates is not about 0 at the centre tie point with symmetric edges",
+                                               dict(ctx2, nadir=nad3, edge_asymmetry=asym, minimum_at_tie_point=int(np.nanargmin(sz3[ok3][0])))))
+                except Exception as e:  # noqa
+                    res.violations.append(("get_angles raised %r on tie-point-only coordinates without TLE data" % (e,), ctx2))
             res.add_case((fmt, n, str(start), tle_state), True, ctx2)
 
 
